@@ -288,7 +288,7 @@ def replay(ctx, case):
 
 def run(ctx):
     q = ctx.quick
-    ctx.hyp("pedigree_moves", case_strategy(q), check_case, 400 if q else 2000)
+    ctx.hyp("pedigree_moves", case_strategy(q), check_case, 700 if q else 2000)
     from . import wiring
 
     ctx.hyp("wiring", wiring.wiring_case("call-pedigree"), wiring.check_wiring, 10 if q else 40)
